@@ -5,7 +5,7 @@ import signal
 
 from hypothesis import strategies as st
 
-from vp.core import Disc, Recorder, derive_seed, hyp_collect, hyp_shrink, escape_bucket, canon, HarnessError
+from vp.core import Disc, Recorder, derive_seed, hyp_collect, hyp_shrink, escape_bucket, HarnessError
 from vp.ref import seqtype as rs
 
 PROPERTY = 'C18'
@@ -28,15 +28,23 @@ ASSUMPTIONS = [
     'nodes of an untyped (schema-less) document are annotated xs:untyped (elements) and xs:untypedAtomic (attributes)',
     'is_sequence_type_restriction is only required to be reflexive, transitive and sound; a False answer is never '
     'flagged on its own (incompleteness). `instance of function(...)` however is compared with the full §2.5.6 '
-    'subtype judgement because the property demands equality for instance of',
+    'subtype judgement because the property demands equality for instance of; where elementpath and the reference '
+    'differ the bucket names the component pair on which the relation is unsound or incomplete',
+    'maps and arrays match typed function tests through their signatures function(xs:anyAtomicType) as item()* and '
+    'function(xs:integer) as item()* (XPath 3.1 §2.5.5.8/9 examples), not through their entries',
     'element/attribute tests with type argument xs:anyType are not generated inside function signatures '
     '(literal subtype rules and extensional reading differ there)',
+    'no verdict on statically invalid sequence types (unknown or non-atomic type names: XPST0051 / XPST0008): they are '
+    'not generated; map keys of type xs:boolean and xs:untypedAtomic are not generated (same-key / constructor '
+    'conversion rules belong to C15)',
+    'a type that elementpath refuses to parse is reported once under C18/parse/... (minimal unparsable sub-type) and '
+    'the expression-level observations are skipped for it; match_sequence_type is still judged',
     'the dynamic type of a python value returned by a function is read from its class through a literal table '
     '(int -> xs:integer, float -> xs:double, Decimal -> xs:decimal, str -> xs:string, datatypes.Int -> xs:int ...)',
     'functions needing external resources, the environment or a tracer, and locale/UCA collations are never called; '
-    'collation parameters only receive the codepoint collation URI',
-    'static errors for sequence types that name a non-atomic or unknown type (XPST0051 / XPST0008) are only checked '
-    'as "an ElementPathError is raised", not for the exact code',
+    'collation parameters only receive the codepoint collation URI; exceptions other than ElementPathError raised by '
+    'a built-in function count as "call did not succeed" (they are C03\'s subject)',
+    'the declared return type is the one registered in XPath31Parser.function_signatures at judge time',
 ]
 FLOORS = {
     'judge:evaluated': (0.70, 'judge'), 'pair:judged': (0.70, 'pair'),
@@ -1171,23 +1179,6 @@ def model_bucket(f):
     #    (also reached when another defect makes a matching item look non-matching, e.g. attribute(p:y)?)
     if inst and f['label'] == 'kind-test' and fp and f['occ'] in ('?', '*'):
         return 'C18/instance/kind-test/nonmatching-item-accepted-under-?*'
-    # M12 the token of an attribute test has no usable source text ('attribute', 'attribute *'): signatures that
-    #     mention attribute tests inside map()/array() never compare equal
-    if it is not None and it[0] == 'function' and it[1] is not None and (fp or fn):
-        x = offender if fp else (f['desc'][0] if f['desc'] else None)
-        if 'attribute(' in rs.render_item(it) or (x is not None and x[0] == 'func' and
-                                                   'attribute(' in rs.render_item(['function', x[1], x[2]])):
-            return f'C18/{obs}/typed-function-test/attribute-test-in-signature/' + ('false-positive' if fp else 'false-negative')
-    # M14/M15 (reachable once occurrence indicators inside map()/array() parse): the `source` text of nested tests is
-    #     lossy - an attribute test renders as 'attribute', a function(*) test loses its occurrence indicator - and
-    #     map()/array() tests and recorded signatures are matched through that text
-    full = rs.render(ast) + ' ' + ' '.join(rs.render_item(['function', d[1], d[2]]) for d in f['desc'] if d[0] == 'func')
-    if it is not None and it[0] in ('map', 'array', 'function') and it[1] is not None:
-        import re
-        if inst and it[0] in ('map', 'array') and 'attribute(' in rs.render_item(it):
-            return f'C18/instance/lossy-source-of-nested-test/attribute/' + ('false-positive' if fp else 'false-negative' if fn else kind)
-        if re.search(r'function\(\*\)[?*+]', full) and (fp or fn):
-            return f'C18/{obs}/lossy-source-of-nested-test/function-star-occurrence/' + ('false-positive' if fp else 'false-negative')
     # M5 typed function test on a function item: which component does elementpath's subtype relation judge
     #    differently from XPath 3.1 2.5.6?  (unsound = accepts a non-subtype, incomplete = refuses a subtype)
     if it is not None and it[0] == 'function' and it[1] is not None and (fp or fn):
@@ -1836,7 +1827,6 @@ def run_job(job, rec: Recorder):
         rec.extra['signatures_excluded_external'] = excluded
         rec.extra['signatures_uninhabitable'] = uninhabitable
         rec.extra['signatures_with_successful_call'] = len(ok)
-        called = total - excluded - uninhabitable
         never = [f'{s[0]}#{s[1]}' for s in _sig_jobs(job) if not sig_excluded(s[0]) and f'{s[0]}#{s[1]}' not in ok]
         if never:
             rec.notes.append('no successful call: ' + ' '.join(never))
